@@ -33,8 +33,8 @@ def dateOfF (t : Int × Int × Int) (f : ℚ) : PyRes (Int × Int × ℚ) :=
     let month := if e < 14 then e - 1 else e - 13
     if month > 2 then .ok (c - 4716, month, (day : ℚ) + f)
     else if month = 1 ∨ month = 2 then .ok (c - 4715, month, (day : ℚ) + f)
-    else .error .other
-  else .error .other
+    else .error .valueError
+  else .error .valueError
 
 theorem dateOfF_of_dateOf (t : Int × Int × Int) (f : ℚ) (y m d : Int)
     (h : dateOf t = .ok (y, m, (d : ℚ))) : dateOfF t f = .ok (y, m, (d : ℚ) + f) := by
